@@ -109,7 +109,8 @@ InitState(k, b, h) ==
    moment later (crash in its shutdown path), donesig dies by a signal a moment later; sleep / ignore / fork outlive
    the grace period and have to be signalled; nodone refuses EXIT (never reaches DONE) and exits 3 on TERM *)
 BehsOf(k) == IF k = "ctl" THEN Behs \cap {"sleep", "ignore", "fork", "exit0", "exit3", "noready", "stuck",
-                                          "done0", "done3", "donesig", "nodone", "fmq", "midstate", "resetstuck"}
+                                          "done0", "done3", "donesig", "nodone", "fmq", "midstate", "resetstuck", "slow"}
+(* slow: a FairMQ device one step of whose CONFIGURE takes 12 s of real time (the model abstracts time: like fmq) *)
                           ELSE Behs \cap {"sleep", "ignore", "fork", "exit0", "exit3", "crash"}
 (* fmq: a FairMQ device (control mode FAIRMQ), otherwise like sleep; midstate: a FairMQ device that, once it was seen
    IDLE and the task reported RUNNING, sits in an intermediate FairMQ state (GetState maps it to no state at all:
